@@ -60,6 +60,9 @@ static std::string jnum(long v)
 }
 static std::string js(const rational &q) { return "[" + jnum(q.numerator()) + "," + jnum(q.denominator()) + "]"; }
 static std::string js(const inf_rational &e) { return "[" + js(e.get_rational()) + "," + js(e.get_infinitesimal()) + "]"; }
+// bounds and distances: an infinite rational part is infinite whatever the infinitesimal part says (it is an artefact of
+// adding eps to an infinite bound), so it is printed in its canonical form
+static std::string jsb(const inf_rational &e) { return is_infinite(e.get_rational()) ? "[" + js(e.get_rational()) + ",[0,1]]" : js(e); }
 static std::string js(const lin &l)
 {
     std::string s = "{\"v\":[";
@@ -170,7 +173,7 @@ static std::string observables()
         s += (i ? "," : "") + g_tr.hooks[i];
     s += "],\"obs\":{\"lra\":[";
     for (size_t v = 0; v < g_tr.n_lra; ++v)
-        s += (v ? "," : "") + ("[" + js(n.lra.lb((var)v)) + "," + js(n.lra.ub((var)v)) + "," + js(n.lra.value((var)v)) + "]");
+        s += (v ? "," : "") + ("[" + jsb(n.lra.lb((var)v)) + "," + jsb(n.lra.ub((var)v)) + "," + js(n.lra.value((var)v)) + "]");
     s += "],\"idl\":[";
     for (size_t i = 0; i < n.idl.size(); ++i)
     {
@@ -184,7 +187,7 @@ static std::string observables()
     {
         s += i ? ",[" : "[";
         for (size_t j = 0; j < n.rdl.size(); ++j)
-            s += (j ? "," : "") + js(n.rdl.distance((var)i, (var)j).second);
+            s += (j ? "," : "") + jsb(n.rdl.distance((var)i, (var)j).second);
         s += "]";
     }
     s += "],\"ov\":[";
@@ -409,7 +412,7 @@ static bool exec_op(const vj::val &op)
                 if (real)
                 {
                     auto b = n.rdl.bounds(l);
-                    res = "[" + js(b.first) + "," + js(b.second) + "]";
+                    res = "[" + jsb(b.first) + "," + jsb(b.second) + "]";
                 }
                 else
                 {
@@ -422,7 +425,7 @@ static bool exec_op(const vj::val &op)
                 if (real)
                 {
                     auto b = n.rdl.distance(l, r);
-                    res = "[" + js(b.first) + "," + js(b.second) + "]";
+                    res = "[" + jsb(b.first) + "," + jsb(b.second) + "]";
                 }
                 else
                 {
